@@ -22,7 +22,8 @@ already cleared (double close, config consumed by mla_archive_new, closing and f
 closing while a file is still open and then using the handle), then extraction of the collected archive through \
 mla_roarchive_extract with throttled read / seek callbacks, per-file writers with their own schedules, a file callback that \
 declines some names, optionally a second extraction in which the read callback, the seek callback or one extraction writer \
-reports an error at its k-th call; mla_roarchive_info on the collected archive). Cases run in worker processes. Oracle: without failure placement every call returns 0, the collected \
+reports an error at its k-th call; mla_roarchive_info on the collected archive; extraction, through the same callbacks, of the \
+same files written by the Rust writer without layers / with compression only / with encryption only). Cases run in worker processes. Oracle: without failure placement every call returns 0, the collected \
 bytes are read by the Rust reader to exactly the files passed in, and every accepted extraction writer receives exactly its \
 file; calls with null / cleared handles return a non-zero status and change nothing; with a failing callback some call \
 returns non-zero and the following calls still return (extraction: non-zero exactly when a callback did report an error, \
@@ -668,6 +669,43 @@ pub fn oracle(c: &Case, st: &mut Stats) -> Result<(), String> {
             }
             (Some(_), true) => return Err(format!("a writer was used for {n} although the file callback declined it")),
             (None, false) => return Err(format!("the file callback was not asked about {n}")),
+        }
+    }
+    // ---- the C reader is not only for archives the C writer made: the same files written by the Rust writer with
+    // another layer set (none, compression only, encryption only) are extracted through the same callbacks
+    if !model.is_empty() {
+        let layers = [0u8, 2, 1][(c.seed % 3) as usize];
+        let foreign = {
+            let cfg = prog::writer_config_via((c.seed % 8) as u8, layers, c.level.min(5), &keys.publics);
+            let mut w = mla::ArchiveWriter::from_config(Vec::new(), cfg).map_err(|e| format!("HARNESS: {e:?}"))?;
+            for (n, d) in &model {
+                w.add_file(n, d.len() as u64, d.as_slice()).map_err(|e| format!("HARNESS: {e:?}"))?;
+            }
+            w.finalize().map_err(|e| format!("HARNESS: {e:?}"))?;
+            w.into_raw()
+        };
+        let mut fsrc = new_source();
+        fsrc.data = foreign;
+        fsrc.decline = 0;
+        let fptr = (&mut *fsrc) as *mut Source as *mut c_void;
+        let mut fcfg: *mut c_void = null;
+        if (lib.reader_config_new)(&mut fcfg) != 0 {
+            return Err("mla_reader_config_new failed".into());
+        }
+        if layers & 1 != 0 && (lib.reader_config_add_private_key)(fcfg, sk.as_ptr()) != 0 {
+            return Err("mla_reader_config_add_private_key failed".into());
+        }
+        let s = (lib.roarchive_extract)(&mut fcfg, Some(read_cb), Some(seek_cb), Some(file_cb), fptr);
+        st.label(format!("extraction of a Rust-written archive: layers={}", prog::layers_name(layers)));
+        if s != 0 {
+            return Err(format!("mla_roarchive_extract failed ({s:#x}) on a valid archive written by the Rust writer with layers {}", prog::layers_name(layers)));
+        }
+        for (n, d) in &model {
+            match fsrc.writers.get(n) {
+                Some(w) if w.buf == *d => {}
+                Some(w) => return Err(format!("extraction of a Rust-written archive (layers {}) delivered {} bytes to the writer of {n}, the file has {}", prog::layers_name(layers), w.buf.len(), d.len())),
+                None => return Err(format!("extraction of a Rust-written archive (layers {}): the file callback was not asked about {n}", prog::layers_name(layers))),
+            }
         }
     }
     Ok(())
